@@ -7,60 +7,63 @@ From Coq Require Import List Arith Lia Bool.
 From TLV Require Import Base.Shape Base.PyList Base.Tensor Base.BigSum Base.Ops Model.Base Model.SvdDecomp.
 Import ListNotations.
 
-(* the code is NOT the realised rank: shape (2,2,7), request (1,3,7,1): the code answers bond 2 = min(3*2, 7, 7) = 6,
-   TT-SVD can only reach min(2*2, 7, 7) = 4 there *)
-Lemma validate_tt_rank_strict_refuted :
-  exists shape rank, length rank = length shape + 1 /\ hd 0 rank = 1 /\ last rank 0 = 1 /\
-    validate_tt_rank_strict_code shape rank <> realised_tt_rank shape rank.
-Proof. exists [2; 2; 7], [1; 3; 7; 1]. repeat split. vm_compute. discriminate. Qed.
-
-(* what does hold: a request the code returns unchanged is realised exactly *)
-Lemma strict_body_code_cons s s2 rest2 rl ranks :
-  strict_body_code (s :: s2 :: rest2) rl ranks =
-  Nat.min (rl * s) (Nat.min (prod (s2 :: rest2)) (hd 1 ranks)) :: strict_body_code (s2 :: rest2) (hd 1 ranks) (tl ranks).
-Proof. reflexivity. Qed.
 Lemma realised_body_cons s s2 rest2 rk ranks :
   realised_body (s :: s2 :: rest2) rk ranks =
   Nat.min (rk * s) (Nat.min (prod (s2 :: rest2)) (hd 1 ranks)) ::
   realised_body (s2 :: rest2) (Nat.min (rk * s) (Nat.min (prod (s2 :: rest2)) (hd 1 ranks))) (tl ranks).
 Proof. reflexivity. Qed.
 
-Lemma strict_body_fixpoint : forall sizes rl ranks,
-  strict_body_code sizes rl ranks = firstn (length sizes - 1) ranks -> length sizes - 1 <= length ranks ->
-  realised_body sizes rl ranks = firstn (length sizes - 1) ranks.
+Lemma strict_loop_code_cons s s2 rest2 i validated rank :
+  strict_loop_code (s :: s2 :: rest2) i validated rank =
+  strict_loop_code (s2 :: rest2) (S i)
+    (validated ++ [Nat.min (nth i validated 0 * s) (Nat.min (prod (s2 :: rest2)) (nth (S i) rank 0))]) rank.
+Proof. reflexivity. Qed.
+
+Lemma hd_skipn_nth (l : list nat) k : k < length l -> hd 1 (skipn k l) = nth k l 0.
 Proof.
-  induction sizes as [|s rest IH]; intros rl ranks H Hl; [reflexivity|].
-  destruct rest as [|s2 rest2]; [reflexivity|].
-  rewrite strict_body_code_cons in H. rewrite realised_body_cons.
-  set (rest := s2 :: rest2) in *.
-  destruct ranks as [|r ranks]; [cbn [length] in Hl; unfold rest in Hl; cbn [length] in Hl; lia|].
-  cbn [hd tl] in *. replace (length (s :: rest) - 1) with (S (length rest - 1)) in * by (unfold rest; cbn [length]; lia).
-  cbn [firstn] in *. injection H as H1 H2.
-  assert (E : Nat.min (rl * s) (Nat.min (prod rest) r) = r) by exact H1.
-  rewrite E. f_equal.
-  apply IH; [exact H2 | cbn [length] in Hl; lia].
+  revert l. induction k; intros [|x l] H; simpl in *; try lia; auto. apply IHk. lia.
 Qed.
 
-Theorem validate_tt_rank_strict_partial shape rank : length rank = length shape + 1 -> hd 0 rank = 1 -> last rank 0 = 1 ->
-  shape <> [] ->
-  validate_tt_rank_strict_code shape rank = rank -> realised_tt_rank shape rank = rank.
+Lemma skipn_S_tl {A} : forall k (l : list A), skipn (S k) l = tl (skipn k l).
 Proof.
-  intros Hl Hh Hla Hne H. unfold validate_tt_rank_strict_code, realised_tt_rank in *.
-  destruct rank as [|r0 ranks]; [simpl in Hl; lia|]. cbn [hd tl] in *. subst r0.
-  injection H as H. f_equal.
-  assert (Hlr : length ranks = length shape) by (simpl in Hl; lia).
-  assert (Hsplit : ranks = firstn (length shape - 1) ranks ++ [1]).
-  { assert (Hn : ranks <> []) by (destruct ranks; [destruct shape; [contradiction|discriminate]|discriminate]).
-    rewrite <- (firstn_skipn (length shape - 1) ranks) at 1. f_equal.
-    assert (Hls : length (skipn (length shape - 1) ranks) = 1) by (rewrite skipn_length; destruct shape; [contradiction|simpl in *; lia]).
-    destruct (skipn (length shape - 1) ranks) as [|x [|? ?]] eqn:Es; try discriminate.
-    f_equal. assert (last (1 :: ranks) 0 = last ranks 0) by (destruct ranks; [contradiction|reflexivity]).
-    rewrite H0 in Hla. rewrite <- (firstn_skipn (length shape - 1) ranks), Es in Hla.
-    rewrite last_last in Hla. exact Hla. }
-  assert (Hbody : strict_body_code shape 1 ranks = firstn (length shape - 1) ranks).
-  { rewrite Hsplit in H at 2. apply app_inv_tail in H. exact H. }
-  rewrite (strict_body_fixpoint shape 1 ranks Hbody) by lia. symmetry. exact Hsplit.
+  induction k; intros l; [destruct l; reflexivity|].
+  destruct l as [|x l]; [reflexivity|]. change (skipn (S (S k)) (x :: l)) with (skipn (S k) l).
+  change (skipn (S k) (x :: l)) with (skipn k l). apply IHk.
 Qed.
+
+(* the accumulator loop of the repaired code computes the realised bonds *)
+Lemma strict_loop_realised : forall sizes i validated rank vl,
+  length validated = S i -> nth i validated 0 = vl -> i + length sizes < length rank + 1 ->
+  strict_loop_code sizes i validated rank = validated ++ realised_body sizes vl (skipn (S i) rank).
+Proof.
+  induction sizes as [|s rest IH]; intros i validated rank vl Hlen Hvl Hr; [now rewrite app_nil_r|].
+  destruct rest as [|s2 rest2]; [now rewrite app_nil_r|].
+  rewrite strict_loop_code_cons, realised_body_cons.
+  assert (Hh : hd 1 (skipn (S i) rank) = nth (S i) rank 0) by (apply hd_skipn_nth; cbn [length] in Hr; lia).
+  rewrite Hh, Hvl.
+  set (r := Nat.min (vl * s) (Nat.min (prod (s2 :: rest2)) (nth (S i) rank 0))).
+  rewrite (IH (S i) (validated ++ [r]) rank r).
+  - rewrite <- app_assoc. cbn [app]. do 3 f_equal. apply skipn_S_tl.
+  - rewrite app_length. cbn [length]. lia.
+  - rewrite app_nth2 by lia. rewrite Hlen, Nat.sub_diag. reflexivity.
+  - cbn [length] in *. lia.
+Qed.
+
+(* FULL (after fix 03a63dd): validate_tt_rank(allow_overparametrization=False) is the rank TT-SVD realises *)
+Theorem validate_tt_rank_strict_realised shape rank : length rank = length shape + 1 ->
+  validate_tt_rank_strict_code shape rank = realised_tt_rank shape rank.
+Proof.
+  intros Hl. unfold validate_tt_rank_strict_code, realised_tt_rank.
+  rewrite (strict_loop_realised shape 0 [1] rank 1) by (auto; lia).
+  cbn [app skipn]. destruct rank; reflexivity.
+Qed.
+
+(* the rule before the fix (left factor = REQUESTED rank[i]) was not: shape (2,2,7), request (1,3,7,1) gave bond 2 =
+   min(3*2, 7, 7) = 6 where TT-SVD reaches min(2*2, 7, 7) = 4 (kept as a worked example of the repaired defect) *)
+Example strict_rule_before_fix_example :
+  Nat.min (3 * 2) (Nat.min 7 7) = 6 /\ realised_tt_rank [2; 2; 7] [1; 3; 7; 1] = [1; 2; 4; 1] /\
+  validate_tt_rank_strict_code [2; 2; 7] [1; 3; 7; 1] = [1; 2; 4; 1].
+Proof. repeat split; reflexivity. Qed.
 
 Section Loop.
 Context {F : Type} (Op : fops F).
